@@ -157,9 +157,9 @@ Lemma insert_validate_none : forall d tb rs batch,
   Forall (fun r => length r = ncols tb /\ notnull_okb tb r = true
                    /\ fk_validate proj_colorder d (t_fks tb) r = None) rs
   /\ (forall pk, t_pk tb = Some pk ->
-        NoDup (map (proj_colorder pk) rs) /\
-        forall r, In r rs -> ~ In (proj_colorder pk r) batch
-                             /\ ~ In (proj_colorder pk r) (map (proj pk) (t_rows tb))).
+        NoDup (map (proj pk) rs) /\
+        forall r, In r rs -> ~ In (proj pk r) batch
+                             /\ ~ In (proj pk r) (map (proj pk) (t_rows tb))).
 Proof.
   intros d tb rs. induction rs as [|r rs IH]; intros batch H.
   - split; [constructor|]. intros pk _. split; [constructor|intros r []].
@@ -168,7 +168,7 @@ Proof.
     destruct (notnull_okb tb r) eqn:En; cbn [negb] in H; [|discriminate].
     apply Nat.eqb_eq in El.
     destruct (t_pk tb) as [pk|] eqn:Epk.
-    + destruct (key_mem (proj_colorder pk r) batch || key_mem (proj_colorder pk r) (map (proj pk) (t_rows tb))) eqn:Ed;
+    + destruct (key_mem (proj pk r) batch || key_mem (proj pk r) (map (proj pk) (t_rows tb))) eqn:Ed;
         [discriminate|].
       destruct (fk_validate proj_colorder d (t_fks tb) r) eqn:Ef; [discriminate|].
       apply orb_false_iff in Ed. destruct Ed as [Ed1 Ed2].
@@ -253,12 +253,6 @@ Proof.
   inversion E; subst d' ev r. clear E. split; [reflexivity|].
   destruct (insert_validate_none _ _ _ _ V) as [F K]. rewrite Forall_forall in F.
   pose proof (get_table_In _ _ _ G) as [Gin Gn].
-  assert (PKC : forall pk x, t_pk tb = Some pk -> In x rs -> proj_colorder pk x = proj pk x).
-  { intros pk x Hpk Hx. destruct (F x Hx) as [Hl _]. apply proj_colorder_asc.
-    - pose proof (inv_std _ I) as S. unfold schema_standard in S. rewrite forallb_forall in S.
-      specialize (S tb Gin). apply andb_true_iff in S. destruct S as [_ S]. rewrite Hpk in S.
-      apply andb_true_iff in S. tauto.
-    - intros c Hc. rewrite Hl. apply (inv_pkcols _ I tb pk Gin Hpk). exact Hc. }
   assert (FKC : forall fk x, In fk (t_fks tb) -> In x rs -> proj_colorder (fk_cols fk) x = proj (fk_cols fk) x).
   { intros fk x Hfk Hx. destruct (F x Hx) as [Hl _].
     pose proof (std_fk _ _ _ (inv_std _ I) Gin Hfk) as S. unfold fk_standard in S.
@@ -268,8 +262,8 @@ Proof.
   apply (append_rows_ok d t tb rs I R G).
   - intros x Hx. apply (F x Hx).
   - intros pk Hpk. destruct (K pk Hpk) as [ND KK]. split.
-    + erewrite map_ext_in; [exact ND|]. intros a Ha. symmetry. apply PKC; assumption.
-    + intros x Hx. destruct (KK x Hx) as [_ K2]. rewrite (PKC pk x Hpk Hx) in K2. split; [exact K2|].
+    + exact ND.
+    + intros x Hx. destruct (KK x Hx) as [_ K2]. split; [exact K2|].
       destruct (F x Hx) as [_ [Hnn _]]. apply (notnull_pk_nonnull tb); [exact Hnn|].
       apply (inv_pkcols _ I tb pk Gin Hpk).
   - intros x fk Hx Hfk HN. destruct (F x Hx) as [_ [_ Hv]].
